@@ -330,10 +330,12 @@ where
         let mut left_cumulative = cdf.next().expect("cdf is not empty");
         let cdf = cdf.chain(core::iter::once(wrapping_pow2(PRECISION)));
 
-        let symbol_table = symbols
-            .into_iter()
-            .zip(cdf)
-            .map(|(symbol, right_cumulative)| {
+        let mut symbols = symbols.into_iter();
+        let mut num_symbols = 0usize;
+        let symbol_table = cdf
+            .zip(&mut symbols)
+            .map(|(right_cumulative, symbol)| {
+                num_symbols += 1;
                 let probability = right_cumulative
                     .wrapping_sub(&left_cumulative)
                     .into_nonzero()
@@ -343,7 +345,12 @@ where
                 (symbol, old_left_cumulative, probability)
             });
 
-        Ok(Self::from_symbol_table(symbol_table))
+        let model = Self::try_from_symbol_table(symbol_table)?;
+        if num_symbols != probabilities.len() || symbols.next().is_some() {
+            // Numbers of symbols and probabilities don't match.
+            return Err(());
+        }
+        Ok(model)
     }
 
     /// Deprecated constructor.
@@ -477,12 +484,15 @@ where
     where
         M: IterableEntropyModel<'m, PRECISION, Symbol = Symbol, Probability = Probability> + ?Sized,
     {
-        Self::from_symbol_table(model.symbol_table())
+        Self::try_from_symbol_table(model.symbol_table())
+            .expect("`symbol_table` must cover the entire range of quantiles.")
     }
 
-    fn from_symbol_table(
+    /// Fails if the probabilities in `symbol_table` don't add up to `1 << PRECISION` (the
+    /// unchecked indexing in `quantile_function` relies on a complete lookup table).
+    fn try_from_symbol_table(
         symbol_table: impl Iterator<Item = (Symbol, Probability, Probability::NonZero)>,
-    ) -> Self {
+    ) -> Result<Self, ()> {
         generic_static_asserts!(
             (Probability: BitArray; const PRECISION: usize);
             PROBABILITY_MUST_SUPPORT_PRECISION: PRECISION <= Probability::BITS;
@@ -498,14 +508,17 @@ where
             cdf.push((lookup_table.len().as_(), symbol));
             lookup_table.resize(lookup_table.len() + probability.get().into(), index);
         }
+        if lookup_table.len() != 1 << PRECISION {
+            return Err(());
+        }
         let last_symbol = cdf.last().expect("cdf is not empty").1.clone();
         cdf.push((wrapping_pow2(PRECISION), last_symbol));
 
-        Self {
+        Ok(Self {
             lookup_table: lookup_table.into_boxed_slice(),
             cdf,
             phantom: PhantomData,
-        }
+        })
     }
 }
 
